@@ -74,7 +74,11 @@ def run(tier, seed):
     runs = [("alg", ["--mode", "alg", "--k", 3 if quick else 4, "--n", 150 if quick else 3000]),
             ("cross", ["--mode", "cross", "--k", 2 if quick else 3]),
             ("param", ["--mode", "param", "--n", 250 if quick else 5000]),
-            ("prec", ["--mode", "prec", "--n", 80 if quick else 1500])]
+            ("prec", ["--mode", "prec", "--n", 80 if quick else 1500]),
+            # list-level and owner-level routes of the same writes (a rejected bulk update raises and changes nothing):
+            # random list histories and the exhaustive bulk mode (offending entry at every position, list and owner)
+            ("list", ["--mode", "list", "--n", 100 if quick else 1500]),
+            ("bulk", ["--mode", "bulk", "--nmax", 2])]
     for name, args in runs:
         tr = os.path.join(wd, "trace-%s.ndjson" % name)
         s = vc.run_driver(exe, args, tr)
@@ -87,12 +91,13 @@ def run(tier, seed):
     _audit(ck, tier, quick, wd, finish=False)
     ck.exhaustive = True
     ck.rule = ("every interval and pair of intervals on a %d-point grid with every code as test value (isCorrect, includes, "
-               "isEmpty, getLimit, getAcceptedLimit, operator&, operator&=, readDescription); every interval x initial value x "
+               "isEmpty, getLimit, getAcceptedLimit, operator&, operator&=, ==, !=, <= between intervals, < > <= >= against values, readDescription); every interval x initial value x "
                "request x new constraint on a %d-point grid through the constructor / setValue / setConstraint of plain and "
                "auto-correcting parameters; random pools of 3-8 reals "
                "(|x|<=1e3, 0 and 1 frequent); random histories (8-30 calls) of construct / copy / conversion / assign / "
                "setValue / setConstraint / removeConstraint / setPrecision on plain and auto-correcting parameters and "
-               "through lists and owning objects, values at, next to and outside the bounds, calls that raise included; "
+               "through lists and owning objects, values at, next to and outside the bounds, calls that raise included; random list "
+               "histories and every bulk update of <= 2 targets with the offending entry at every position (list and owner); "
                "non-trivial = scenario with at least one state-changing call" % (3 if quick else 4, 2 if quick else 3))
     ck.distinct = ck.traces
     ck.assumptions = ["TLC; CommunityModules Json", "E1: only the order type of {bounds, values} matters for the calls exercised",
